@@ -503,6 +503,8 @@ const BTOR2_DOCS: &[&[u8]] = &[
     b"1 sort bitvec 1\n2 input 1\n3 input 1\n4 input 1\n5 justice 2 2 3\n6 justice 1 4\n7 justice 3 4 3 2\n8 ite 1 2 3 4 s ; c1\n9 ite 1 4 3 2\n10 input 1 ; c2\n11 input 1\n",
     // constants of every base after one another, in every order: the constant buffer must not carry over
     b"1 sort bitvec 8\n2 consth 1 ff\n3 const 1 101\n4 constd 1 12\n5 const 1 1\n6 consth 1 a\n7 constd 1 -3\n8 constd 1 5\n9 consth 1 0\n10 const 1 0\n",
+    // every constant keyword in the middle of a document (written alone, such a line is the last of its input)
+    b"1 sort bitvec 8\n2 zero 1\n3 one 1\n4 ones 1\n5 input 1 z\n6 state 1\n7 not 1 2\n",
     b"; only a comment\n\n  \n1 sort bitvec 1\n",
     b"1 sort bitvec 1",
     b"1 sort bitvec 1 ; no newline",
@@ -513,6 +515,9 @@ const BTOR2_DOCS: &[&[u8]] = &[
     // declared counts far beyond what the line holds (C05: a declared count must not size anything)
     b"1 sort bitvec 1\n2 input 1\n3 justice 40000000 2\n",
     b"1 sort bitvec 1\n2 input 1\n3 justice 18446744073709551615 2 2\n",
+    // a long token mixing ASCII and multi-byte / invalid UTF-8 (error messages quote and shorten the offending token)
+    b"x\xc3\xa9\xc3\xa9\xc3\xa9\xc3\xa9\xc3\xa9\xc3\xa9\xc3\xa9\xc3\xa9\xc3\xa9\xc3\xa9\xc3\xa9\xc3\xa9\xc3\xa9\xc3\xa9\xc3\xa9\xc3\xa9\xc3\xa9\xc3\xa9\xc3\xa9\xc3\xa9\xc3\xa9\xc3\xa9\xc3\xa9\xc3\xa9\xc3\xa9\xc3\xa9\xc3\xa9\xc3\xa9\xc3\xa9\xc3\xa9\xc3\xa9\xc3\xa9\xc3\xa9\xc3\xa9\xc3\xa9\xc3\xa9\xc3\xa9\xc3\xa9\xc3\xa9\xc3\xa9",
+    b"x\xff\xff\xff\xff\xff\xff\xff\xff\xff\xff\xff\xff\xff\xff\xff\xff\xff\xff\xff\xff\xff\xff\xff\xff\xff\xff\xff\xff\xff\xff",
 ];
 const CNF_TOKENS: &[&[u8]] = &[
     b"1", b"-1", b"2", b"-2", b"3", b"0", b"-0", b"00", b"007", b"-", b"p", b"cnf", b"c", b"c x", b"\n", b"\n", b"\r\n", b" ", b"\t", b"x", b"2147483647", b"2147483648", b"-2147483648", b"-2147483649",
@@ -530,6 +535,9 @@ const CNF_DOCS: &[&[u8]] = &[
     b"p cnf 3 2\n1 -2 0\n3 0\n  \nc trailing\n",
     b"p cnf 18446744073709551616 1\n1 0\n",
     b"p  cnf  3   2 \n 1  -2   0 \n3 0",
+    // a long token mixing ASCII and multi-byte / invalid UTF-8 (error messages quote and shorten the offending token)
+    b"x\xc3\xa9\xc3\xa9\xc3\xa9\xc3\xa9\xc3\xa9\xc3\xa9\xc3\xa9\xc3\xa9\xc3\xa9\xc3\xa9\xc3\xa9\xc3\xa9\xc3\xa9\xc3\xa9\xc3\xa9\xc3\xa9\xc3\xa9\xc3\xa9\xc3\xa9\xc3\xa9\xc3\xa9\xc3\xa9\xc3\xa9\xc3\xa9\xc3\xa9\xc3\xa9\xc3\xa9\xc3\xa9\xc3\xa9\xc3\xa9\xc3\xa9\xc3\xa9\xc3\xa9\xc3\xa9\xc3\xa9\xc3\xa9\xc3\xa9\xc3\xa9\xc3\xa9\xc3\xa9",
+    b"x\xff\xff\xff\xff\xff\xff\xff\xff\xff\xff\xff\xff\xff\xff\xff\xff\xff\xff\xff\xff\xff\xff\xff\xff\xff\xff\xff\xff\xff\xff",
 ];
 const CNF8_TOKENS: &[&[u8]] = &[b"1", b"-1", b"127", b"128", b"-127", b"-128", b"-129", b"255", b"256", b"0", b"-0", b"\n", b" ", b"p cnf 1 1\n", b"c\n", b"99999999999999999999", b"9223372036854775807", b"9223372036854775808"];
 const CNF8_DOCS: &[&[u8]] = &[b"p cnf 1 1\n5 -127 0\n3 0\n-7 0\n", b"127 -127 0\n", b"p cnf 300 300\n1 0\n"];
@@ -543,6 +551,9 @@ const WCNF_DOCS: &[&[u8]] = &[
     b"5 1 2 0\n7 -1 2 0\n",
     b"p wcnf 3 1 18446744073709551615\n18446744073709551615 1 -3 0\n",
     b"p wcnf 3 2 10\r\n10 1 -2 0\r\n3 3 0\r\n",
+    // a long token mixing ASCII and multi-byte / invalid UTF-8 (error messages quote and shorten the offending token)
+    b"x\xc3\xa9\xc3\xa9\xc3\xa9\xc3\xa9\xc3\xa9\xc3\xa9\xc3\xa9\xc3\xa9\xc3\xa9\xc3\xa9\xc3\xa9\xc3\xa9\xc3\xa9\xc3\xa9\xc3\xa9\xc3\xa9\xc3\xa9\xc3\xa9\xc3\xa9\xc3\xa9\xc3\xa9\xc3\xa9\xc3\xa9\xc3\xa9\xc3\xa9\xc3\xa9\xc3\xa9\xc3\xa9\xc3\xa9\xc3\xa9\xc3\xa9\xc3\xa9\xc3\xa9\xc3\xa9\xc3\xa9\xc3\xa9\xc3\xa9\xc3\xa9\xc3\xa9\xc3\xa9",
+    b"x\xff\xff\xff\xff\xff\xff\xff\xff\xff\xff\xff\xff\xff\xff\xff\xff\xff\xff\xff\xff\xff\xff\xff\xff\xff\xff\xff\xff\xff\xff",
 ];
 const GCNF_TOKENS: &[&[u8]] = &[
     b"1", b"-1", b"2", b"0", b"{0}", b"{1}", b"{2}", b"{3}", b"{", b"}", b"{1", b"p", b"gcnf", b"c x", b"\n", b"\n", b" ", b"x", b"32767", b"32768", b"-32768", b"{18446744073709551615}", b"{18446744073709551616}",
@@ -554,6 +565,9 @@ const GCNF_DOCS: &[&[u8]] = &[
     b"{1} 1 2 0\n{5} -1 2 0\n",
     b"p gcnf 32767 1 1\n{1} 32767 -32767 0\n",
     b"{123456789} 1 0\n{1234567} 2 0\n{12345678} 3 0\n",
+    // a long token mixing ASCII and multi-byte / invalid UTF-8 (error messages quote and shorten the offending token)
+    b"x\xc3\xa9\xc3\xa9\xc3\xa9\xc3\xa9\xc3\xa9\xc3\xa9\xc3\xa9\xc3\xa9\xc3\xa9\xc3\xa9\xc3\xa9\xc3\xa9\xc3\xa9\xc3\xa9\xc3\xa9\xc3\xa9\xc3\xa9\xc3\xa9\xc3\xa9\xc3\xa9\xc3\xa9\xc3\xa9\xc3\xa9\xc3\xa9\xc3\xa9\xc3\xa9\xc3\xa9\xc3\xa9\xc3\xa9\xc3\xa9\xc3\xa9\xc3\xa9\xc3\xa9\xc3\xa9\xc3\xa9\xc3\xa9\xc3\xa9\xc3\xa9\xc3\xa9\xc3\xa9",
+    b"x\xff\xff\xff\xff\xff\xff\xff\xff\xff\xff\xff\xff\xff\xff\xff\xff\xff\xff\xff\xff\xff\xff\xff\xff\xff\xff\xff\xff\xff\xff",
 ];
 const SATLOG_TOKENS: &[&[u8]] = &[b"-9223372036854775808", b"9223372036854775807", b"-9223372036854775809", b"9223372036854775808", b"-2147483648", b"-2147483647", b"2147483647", b"v -9223372036854775808 0\n", b"s", b"SATISFIABLE", b"UNSATISFIABLE", b"UNKNOWN", b"v", b"1", b"-2", b"3", b"0", b"c", b"c x", b"o 5", b"\n", b"\n", b" ", b"x", b"2147483648", b"s SATISFIABLE\n", b"v 1 -2 0\n"];
 const SATLOG_DOCS: &[&[u8]] = &[
@@ -567,6 +581,9 @@ const SATLOG_DOCS: &[&[u8]] = &[
     b"o 7\ns SATISFIABLE\no 5\nv 1 -2 3 0\n",
     b"s SATISFIABLE\nv 1 -2 3 0",
     b"c only comments\n",
+    // a long token mixing ASCII and multi-byte / invalid UTF-8 (error messages quote and shorten the offending token)
+    b"x\xc3\xa9\xc3\xa9\xc3\xa9\xc3\xa9\xc3\xa9\xc3\xa9\xc3\xa9\xc3\xa9\xc3\xa9\xc3\xa9\xc3\xa9\xc3\xa9\xc3\xa9\xc3\xa9\xc3\xa9\xc3\xa9\xc3\xa9\xc3\xa9\xc3\xa9\xc3\xa9\xc3\xa9\xc3\xa9\xc3\xa9\xc3\xa9\xc3\xa9\xc3\xa9\xc3\xa9\xc3\xa9\xc3\xa9\xc3\xa9\xc3\xa9\xc3\xa9\xc3\xa9\xc3\xa9\xc3\xa9\xc3\xa9\xc3\xa9\xc3\xa9\xc3\xa9\xc3\xa9",
+    b"x\xff\xff\xff\xff\xff\xff\xff\xff\xff\xff\xff\xff\xff\xff\xff\xff\xff\xff\xff\xff\xff\xff\xff\xff\xff\xff\xff\xff\xff\xff",
 ];
 const AAG_TOKENS: &[&[u8]] = &[b"aag", b"0", b"1", b"2", b"3", b"4", b"5", b"6", b"7", b"\n", b"\n", b" ", b"i0 x", b"l0 s", b"o0 out", b"b0 ", b"c", b"c\n", b"text", b"aag 1 1 0 1 0\n", b"aag 3 1 1 1 1\n", b"4294967295", b"4294967296"];
 const AAG_DOCS: &[&[u8]] = &[
@@ -586,6 +603,9 @@ const AAG_DOCS: &[&[u8]] = &[
     b"aag 3 1 1 1 1\n2\n4 6 1\n6\n6 2 4\nc\n",
     b"aag 3 1 1 1 1\n2\n4 6 1\n6\n6 2 4\nc",
     b"aag 1 1 0 0 0\n2\ni0 first\ni0 again\n",
+    // a long token mixing ASCII and multi-byte / invalid UTF-8 (error messages quote and shorten the offending token)
+    b"x\xc3\xa9\xc3\xa9\xc3\xa9\xc3\xa9\xc3\xa9\xc3\xa9\xc3\xa9\xc3\xa9\xc3\xa9\xc3\xa9\xc3\xa9\xc3\xa9\xc3\xa9\xc3\xa9\xc3\xa9\xc3\xa9\xc3\xa9\xc3\xa9\xc3\xa9\xc3\xa9\xc3\xa9\xc3\xa9\xc3\xa9\xc3\xa9\xc3\xa9\xc3\xa9\xc3\xa9\xc3\xa9\xc3\xa9\xc3\xa9\xc3\xa9\xc3\xa9\xc3\xa9\xc3\xa9\xc3\xa9\xc3\xa9\xc3\xa9\xc3\xa9\xc3\xa9\xc3\xa9",
+    b"x\xff\xff\xff\xff\xff\xff\xff\xff\xff\xff\xff\xff\xff\xff\xff\xff\xff\xff\xff\xff\xff\xff\xff\xff\xff\xff\xff\xff\xff\xff",
 ];
 const AIG_TOKENS: &[&[u8]] = &[b"aig", b"0", b"1", b"2", b"3", b"4", b"6", b"\n", b"\n", b" ", b"\x01", b"\x02", b"\x80", b"\x81\x01", b"\x7f", b"\xff", b"i0 x", b"c\n", b"aig 1 1 0 1 0\n", b"aig 3 1 1 1 1\n", b"65535", b"65536"];
 const AIG_DOCS: &[&[u8]] = &[
